@@ -281,7 +281,9 @@ func (cmd *mainCmd) Run(args []string) error {
 		filename := sourcePath.Absolute
 		content, err := os.ReadFile(filename)
 		if err != nil {
-			return err
+			// Abort, but still report the failures recorded so far.
+			errors = append(errors, err)
+			break
 		}
 		f, err := parser.ParseFile(fset, filename, content /* src */, parser.AllErrors|parser.ParseComments)
 		if err != nil {
